@@ -301,7 +301,7 @@ AnnLetters(n, anc, pre) ==
   ELSE IF IsHtml(n, "img")
        THEN (IF ImgVisible(n) THEN LET ls == Letters(n.a.alt) IN [i \in 1..Len(ls) |-> <<ls[i], Append(anc, <<"I", n.a.src>>), pre>>] ELSE <<>>)
   ELSE AnnLettersSeq(n.c, anc \o AnnOf(n), pre \/ IsHtml(n, "pre"))
-NoP(tags) == SelectSeq(tags, LAMBDA t : t[1] # "P")
+NoP(tags) == SelectSeq(tags, LAMBDA t : t[1] \notin {"P", "Fg", "Bg"})      \* (colours: see P_C09 below / C19)
 HasP(tags) == \E i \in 1..Len(tags) : tags[i][1] = "P"
 OutAnnLetters(res) ==
   LET items == SelectSeq(Concat(res.lines), LAMBDA x : ~IsFrag(x) /\ IsLetterCode(x[1])) IN
@@ -336,7 +336,7 @@ LineStart(n, pre, at) ==
   ELSE [out |-> LineStartSeq(n.c, pre, FALSE).out, at |-> FALSE]
 PVal(tags) == LET idx == {i \in 1..Len(tags) : tags[i][1] = "P"} IN
               IF idx = {} THEN -1 ELSE tags[CHOOSE m \in idx : \A q \in idx : q <= m][2]
-P_C09(c) ==
+P_C09_nesting(c) ==
   ~IsRichLines(c.runs[1]) \/
   LET a == c.runs[1]
       dom == Dom1(c, a)
@@ -622,6 +622,34 @@ AffixStream(n, ds) ==
                     [] n.n = "a" /\ HasAttr(n, "href") /\ NonWs(FlowText(n)) # <<>> -> ds.link
                     [] OTHER -> << <<>>, <<>> >>
        IN Codes(aff[1]) \o inner \o Codes(aff[2])
+\* with unicode_strikeout the text inside <s>/<del> (nested affixes included, the element's own affixes
+\* not) carries one U+0336 after every character that has width; the comparison keeps a strike mark
+\* exactly when it directly follows a kept character
+ZeroWidthCode(k) == k \in 768..879
+RECURSIVE AffixStreamS(_, _, _)
+AffixStreamSSeq(ns, ds, struck) == Concat([i \in 1..Len(ns) |-> AffixStreamS(ns[i], ds, struck)])
+Strike1(codes, struck) == IF ~struck THEN codes
+                          ELSE Concat([i \in 1..Len(codes) |-> IF ZeroWidthCode(codes[i]) THEN <<codes[i]>> ELSE <<codes[i], STRIKE>>])
+AffixStreamS(n, ds, struck) ==
+  IF n.k = "t" THEN Strike1(Letters(n.s), struck)
+  ELSE IF n.k # "e" \/ Ignored(n) THEN <<>>
+  ELSE IF IsHtml(n, "img") THEN (IF ImgVisible(n) THEN Strike1(Codes(ds.img[1]) \o Letters(n.a.alt) \o Codes(ds.img[2]), struck) ELSE <<>>)
+  ELSE LET isStrike == n.h /\ n.n \in {"s", "del"}
+           aff == CASE ~n.h -> << <<>>, <<>> >>
+                    [] n.n \in {"em", "i", "ins", "dt"} -> ds.em
+                    [] n.n = "strong" -> ds.strong
+                    [] isStrike -> ds.strike
+                    [] n.n = "code" -> ds.code
+                    [] n.n = "a" /\ HasAttr(n, "href") /\ NonWs(FlowText(n)) # <<>> -> ds.link
+                    [] OTHER -> << <<>>, <<>> >>
+           inner == AffixStreamSSeq(n.c, ds, struck \/ isStrike)
+       IN Strike1(Codes(aff[1]), struck) \o inner \o Strike1(Codes(aff[2]), struck)
+\* output codes restricted to `keep`, each followed by a strike mark iff one follows it in the output
+KeepWithStrikes(codes, keep) ==
+  Concat([i \in 1..Len(codes) |->
+            IF codes[i] \in keep
+            THEN (IF i < Len(codes) /\ codes[i + 1] = STRIKE THEN <<codes[i], STRIKE>> ELSE <<codes[i]>>)
+            ELSE <<>>])
 P_C16(c) ==
   /\ \A i \in 1..Len(c.runs) : c.runs[i].res.k \in {"ok", "narrow"}            \* no panic with any strings
   /\ P_C02(c)                                                                    \* the width bound by display width
@@ -631,8 +659,9 @@ P_C16(c) ==
          \* characters (block prefixes may use any other character, including wide ones)
          docLetters == LET v == Letters(FlowTextSeq(dom)) IN {v[i] : i \in 1..Len(v)}
          keep == AffixCodes(ds) \cup docLetters
-         obs == SelectSeq(Codes(AllOut(a.res)), LAMBDA k : k \in keep)
-         exp == AffixStreamSeq(dom, ds) IN
+         strikeOn == CfgOf(a.cfg).strike
+         obs == IF strikeOn THEN KeepWithStrikes(Codes(AllOut(a.res)), keep) ELSE SelectSeq(Codes(AllOut(a.res)), LAMBDA k : k \in keep)
+         exp == IF strikeOn THEN AffixStreamSSeq(dom, ds, FALSE) ELSE AffixStreamSeq(dom, ds) IN
      \* affixes verbatim around the text (table-free documents: an empty element in a cell of an
      \* otherwise empty column is not drawn at all, affixes included)
      (IsOk(a) /\ "affix" \in DOMAIN c.meta /\ ~HasTable(dom)) => obs = exp
@@ -695,6 +724,8 @@ ColourOK(c, run) ==
          exp == ExpColoursSeq(Dom1(c, run), Dom1(c, run), <<>>, CssOf(c, run), <<>>, <<>>) IN
      IF HasTable(Dom1(c, run)) THEN BagOf(obs) = BagOf(exp) ELSE obs = exp
 P_C19(c) == \A i \in 1..Len(c.runs) : ColourOK(c, c.runs[i])
+\* C09 in full: element annotations by nesting, and CSS colours by the cascade (cases that carry sheets)
+P_C09(c) == IF "css" \in DOMAIN c.meta THEN \A i \in 1..Len(c.runs) : ColourOK(c, c.runs[i]) ELSE P_C09_nesting(c)
 P_C20(c) == \A i \in 1..Len(c.runs) : ColourOK(c, c.runs[i])
 
 (* ---- C18: display:none hides exactly the matched subtrees --------------------------------------------- *)
